@@ -22,6 +22,7 @@ from onnx import numpy_helper as nh
 
 from harness import c13_emit as M
 from harness import c13_gen as G
+from harness import c13_variants as VR
 from harness import graphlit
 from harness.common import cbool, clist, cstr, cz
 
@@ -273,11 +274,20 @@ def model_rename_sequence(proto, opts):
     """ModelProto, rename=True: the names in the order in which the exporter first hands them to the short-name mapper
     (an independent traversal in the order of _translate_graph_body / _translate_node / _translate_if / _translate_loop;
     a wrong order shows up as a disagreement, never as agreement)."""
+    vr = VR.detect()
     seq = []
     consts = set()
 
+    def src(x):  # right-hand side of an emitted assignment / range() / return: the reference with C13_05
+        if vr["src_ref"]:
+            ref(x)
+        else:
+            var(x)
+
+    remapped = set()  # cond_out of a pure `for` loop: translated through the remapping scope, never by the mapper
+
     def var(x):
-        if x != "":
+        if x != "" and x not in remapped:
             seq.append(x)
 
     def ref(x):
@@ -297,13 +307,19 @@ def model_rename_sequence(proto, opts):
     def assign(lhs, rhs):
         for x, y in zip(lhs, rhs):
             var(x)
-            var(y)
+            src(y)
 
     def inlinable(n):
         if not (opts["inline_const"] and n.op_type == "Constant" and n.attribute and n.attribute[0].HasField("t")):
             return False
         t = n.attribute[0].t
-        return t.data_type in (TP.FLOAT, TP.INT64) and (len(t.dims) == 0 or (len(t.dims) == 1 and t.dims[0] < 5))
+        if not (t.data_type in (TP.FLOAT, TP.INT64) and (len(t.dims) == 0 or (len(t.dims) == 1 and t.dims[0] < 5))):
+            return False
+        if vr["nonempty_only"] and list(t.dims) == [0]:
+            return False
+        if vr["finite_only"] and t.data_type == TP.FLOAT and not np.all(np.isfinite(nh.to_array(t))):
+            return False
+        return True
 
     def body(nodes):
         for n in nodes:
@@ -326,7 +342,7 @@ def model_rename_sequence(proto, opts):
             has0 = len(n.input) > 0 and n.input[0] != ""
             has1 = len(n.input) > 1 and n.input[1] != ""
             if has0:
-                var(n.input[0])
+                src(n.input[0])
             var(b.input[0].name)
             cin, cout = b.input[1].name, b.output[0].name
             var(cin)
@@ -347,6 +363,8 @@ def model_rename_sequence(proto, opts):
             k = max(len(n.input) - 2, 0)
             fins = [i.name for i in b.input[2:]]
             assign(fins, list(n.input[2:]))
+            if (has0 or b.input[0].name in used) and not use_cond:
+                remapped.add(cout)
             body(b.node)
             if use_cond:
                 assign([cin], [cout])
@@ -365,7 +383,10 @@ def model_rename_sequence(proto, opts):
 
     body(proto.graph.node)
     for o in proto.graph.output:
-        var(o.name)
+        src(o.name)
+    if vr["sig_renamed"]:  # C13_01: the signature is renamed too, after the body and the return values
+        for i in proto.graph.input:
+            var(i.name)
     out, seen = [], set()
     for x in seq:
         if x not in seen:
@@ -393,12 +414,17 @@ def in_scope(case, opts):
         if not is_model:
             raise OutOfScope("skip_initializers on a function")
         large = [i for i in proto.graph.initializer if int(np.prod(list(i.dims) or [1])) > 4]
-        if not large:
+        if not large and not VR.detect()["skip_wraps"]:
             raise OutOfScope("skip_initializers without a large initializer (known finding: indented source)")
         if any(i.data_type not in (TP.FLOAT, TP.INT8) for i in large):
             raise OutOfScope("skip_initializers: large initializer of a type generate_rand refuses")
     if opts["rename"] and is_model and proto.graph.initializer:
         raise OutOfScope("rename=True on a model with initializers (the twice-renamed Constant needs the mapper's state)")
+    if VR.detect()["unique_names"]:
+        names = G.all_names(proto)
+        from onnxscript.backend import onnx_export as E
+        if len({E._cleanup_variable_name(n) for n in names}) != len(set(names)):
+            raise OutOfScope("unique-name repair (C13_07) on a model whose names collide after clean-up: suffixes not modelled")
     graph_lit(proto)
     ivals_lit(proto)
 
@@ -425,10 +451,20 @@ def coq_terms(case, opts):
     if opts["rename"]:
         seq = model_rename_sequence(proto, opts) if is_model else M.renamer_sequence(proto)
         ren = f"(short_map kwlist {clist(seq, cstr)})"
-        pre = clean if is_model else ren
+        pre = clean if (is_model and not VR.detect()["sig_renamed"]) else ren
     else:
         ren = pre = clean
-    return pre, ren, f"(cleanup kwlist {cstr(raw_name)})", ivals_lit(proto), graph_lit(proto), cbool(not is_model)
+    # C13_01: a model graph is translated inside a remapping scope, like a function body
+    return pre, ren, f"(cleanup kwlist {cstr(raw_name)})", ivals_lit(proto), graph_lit(proto), cbool(not is_model or VR.detect()["model_scope"])
+
+
+def option_terms(opts):
+    """Coq terms of the use_operators / inline_const options with the repair flags the implementation shows"""
+    vr = VR.detect()
+    use_ops = f"(Some {cbool(vr['paren_neg'])})" if opts["use_operators"] else "None"
+    inline = (f"(Some {{| fx_finite := {cbool(vr['finite_only'])}; fx_nonempty := {cbool(vr['nonempty_only'])}; "
+              f"fx_src_ref := {cbool(vr['src_ref'])}; fx_init_raw := {cbool(vr['init_raw_key'])} |}})") if opts["inline_const"] else "None"
+    return use_ops, inline
 
 
 def coq_body(items):
@@ -439,7 +475,8 @@ def coq_body(items):
         pre, ren, fname, iv, g, infun = coq_terms(case, opts)
         lines.append(f"Definition g{k} : graph := {g}.")
         lines.append(f"Definition iv{k} : list (vname * attrv) := {iv}.")
-        lines.append(f"Definition m{k} := export_cf kwlist {pre} {ren} {infun} {cbool(opts['use_operators'])} {cbool(opts['inline_const'])} "
+        use_ops, inline = option_terms(opts)
+        lines.append(f"Definition m{k} := export_cf kwlist {pre} {ren} {infun} {use_ops} {inline} "
                      f"{cbool(opts['skip_initializers'])} {fname} iv{k} g{k}.")
         lines.append(f"Definition o{k} : option (func * list string) := {obs['func'] or 'None'}.")
         plain = OKB is not None and not (opts["use_operators"] or opts["inline_const"] or opts["skip_initializers"])
